@@ -34,8 +34,15 @@ static const struct sinput SINPUTS[] = {
         /* shapes used by the Promela conformance check (models/): a 3-leaf chain and a 4-leaf caterpillar */
         {"three-dna", 0, 3, 0, 0, KALIGN_TYPE_UNDEFINED, -1, -1, -1, {"ACGTACGT", "ACGTACG", "TTGACC"}},
         {"cat4b-dna", 0, 4, 0, 0, KALIGN_TYPE_UNDEFINED, -1, -1, -1, {"ACGTACGTACGTAA", "ACGTACGTACGTA", "ACGTACGTCCAT", "GGTTGGTTGG"}},
+        /* k-means restarts that tie exactly: two families of equal-length sequences that differ by compensating shifts inside
+           homopolymer runs (the restarts find the same split with left and right exchanged; both halves give profiles of equal
+           length and the merge has tied gap placements, so the order of the two children is visible in the bytes) */
+        {"kmtie120-prot", 3, 120, 0, 1, KALIGN_TYPE_UNDEFINED, -1, -1, -1, {0}},
 };
 
+#ifndef SINPUT_TIE_SEED
+#define SINPUT_TIE_SEED 1
+#endif
 static int sinput_count(void)
 {
         return (int)(sizeof SINPUTS / sizeof SINPUTS[0]);
@@ -65,6 +72,56 @@ static void sinput_build(const struct sinput* si, struct kx_set* out)
                 for(i = 0; i < si->n; i++){
                         sh_derive(&st, alpha, base, si->len + 20, si->len + 7 * i, tmp);
                         kx_set_addf(out, tmp, "long%d", i);
+                }
+        }else if(si->kind == 3){
+                static const char AA[] = "ACDEFGHIKLMNPQRSTVWY";
+                char X[200], Y[200], tmp[200];
+                int runpos[12], nx = 0, b, k, yo = 0;
+                uint64_t s2 = 0xA11CE5EEDULL + (uint64_t)SINPUT_TIE_SEED;
+                for(b = 0; b < 12; b++){
+                        char c;
+                        for(k = 0; k < 8; k++){
+                                X[nx++] = AA[sh_rng(&s2) % 20];
+                        }
+                        c = AA[sh_rng(&s2) % 20];
+                        runpos[b] = nx;
+                        for(k = 0; k < 4; k++){
+                                X[nx++] = c;
+                        }
+                }
+                X[nx] = 0;
+                /* Y: runs 1, 5, 9 one shorter; runs 3, 7, 11 one longer (same total length) */
+                for(k = 0, b = 0; k < nx; k++){
+                        while(b < 12 && runpos[b] < k){
+                                b++;
+                        }
+                        if(b < 12 && runpos[b] == k && (b == 1 || b == 5 || b == 9)){
+                                continue;               /* drop the first residue of the run */
+                        }
+                        Y[yo++] = X[k];
+                        if(b < 12 && runpos[b] == k && (b == 3 || b == 7 || b == 11)){
+                                Y[yo++] = X[k];         /* repeat it */
+                        }
+                }
+                Y[yo] = 0;
+                for(i = 0; i < si->n; i++){
+                        const char* src = (i & 1) ? Y : X;
+                        int q;
+                        strcpy(tmp, src);
+                        for(q = 0; q < 3; q++){
+                                /* substitutions inside the 8-residue blocks only (block b, offset 1..6) */
+                                int blk = (int)(sh_rng(&s2) % 12), off = 1 + (int)(sh_rng(&s2) % 6), pos = blk * 12 + off;
+                                if(i & 1){
+                                        /* positions in Y are shifted by the runs dropped / repeated before the block */
+                                        int d = 0, r;
+                                        for(r = 0; r < blk; r++){
+                                                d += (r == 3 || r == 7 || r == 11) - (r == 1 || r == 5 || r == 9);
+                                        }
+                                        pos += d;
+                                }
+                                tmp[pos] = AA[sh_rng(&s2) % 20];
+                        }
+                        kx_set_addf(out, tmp, (i & 1) ? "q%04d_y" : "q%04d_x", i);
                 }
         }else{
                 char bases[6][40];
